@@ -248,7 +248,33 @@ def one(ctx, desc, kw, stream):
     c01.oracle(ctx, desc, obs, model, kw)
 
 
+def phase_maxiter(ctx):
+    """several phases, a sweep budget that SOME phase exceeds and another does not: the call must raise RuntimeError, whichever
+    position the slow phase has in the declaration order (no partly converged table)"""
+    rng = ctx.rng
+    desc = gen.gen_system(rng, phases=1.0, max_nodes=10, p_neg_src_rs=0.0, p_micro=0.0)
+    if rng.random() < 0.5 and len(desc.get("phases") or {}) >= 2:
+        items = list(desc["phases"].items())
+        rng.shuffle(items)
+        desc["phases"] = dict(items)
+    df, err, its = solve_observed(desc, {})
+    if err is not None or not its or len(its) < 2 or min(its) == max(its):
+        ctx.stats["phase_maxiter:not_applicable"] += 1
+        return
+    m = rng.randint(min(its), max(its) - 1)
+    df2, err2, its2 = solve_observed(desc, {"maxiter": m})
+    cls = sysdesc.exc_class(err2[1]) if err2 else "ok"
+    ctx.stats["phase_maxiter:%s" % cls] += 1
+    ctx.case(key=solved.desc_key(desc) + ["maxiter", m], nontrivial=True,
+             sample={"stream": "phase_maxiter", "sweeps_per_phase": its, "maxiter": m, "outcome": cls})
+    if cls != "RuntimeError":
+        ctx.oracle(desc, "unconverged_phase_returned", "solve", {},
+                   {"sweeps_needed_per_phase": its, "phases": list(desc["phases"]), "solve_kw": {"maxiter": m}, "outcome": cls})
+
+
 def run(ctx):
+    for _ in range(ctx.n(40, 600)):
+        phase_maxiter(ctx)
     for desc_kw in witnesses():
         one(ctx, desc_kw[0], desc_kw[1], "witness")
     n = ctx.n(120, 5000)
